@@ -289,6 +289,12 @@ def _nonherm(spec, ctx, R):
     purify_opt = bool((spec["idx"] // 21) % 2)
     axis_opt = "x"
     opts = {"res_tol": res_tol_opt, "block_purify": purify_opt}
+    # the remaining documented options in explicit form: eigenvalue tolerance (default, looser, tighter) and the only supported subfield axis
+    et_ = [None, 1e-8, 1e-14, 1e-12][(spec["idx"] // 3) % 4]
+    if et_ is not None:
+        opts["eig_tol"] = et_
+    if (spec["idx"] // 5) % 2:
+        opts["subfield_axis"] = "x"
     ctx.hit(f"nh:options:res_tol={res_tol_opt},block_purify={purify_opt}")
     s1 = float(embed.svals(A)[0])
     A0 = refq.fa(A).copy()
